@@ -20,6 +20,10 @@ def plans(tier):
         # out of the following waits although nothing new arrives on them
         {"name": "11-ready-at-once", "msgs": [[1]] * 11, "prog": [A(m) for m in range(1, 12)], "simulate": 2, "depth": 400,
          "caps": (10,), "senders_first": True, "liveness": False},
+        # members 3 and 4 are created only after members 1 and 2 have closed and left the set: their descriptors get the
+        # numbers of the departed ones; whatever the set remembers per descriptor number must not outlive the member
+        {"name": "late-members-reuse-fds", "msgs": [[1], [1], [1, 1], [2]], "prog": [A(1), A(2), S, S, A(3), A(4)], "simulate": 25,
+         "caps": (2,), "late": [3, 4], "liveness": False},
         # the sender of a fragmented message is killed mid-message; observed through the set
         {"name": "kill-mid-message", "msgs": [[1, 2], [2, 1]], "prog": [A(1), A(2)], "simulate": 30, "caps": (2,),
          "crashers": [2], "liveness": False},
